@@ -74,6 +74,11 @@ EXTRACTS = [
     # the FEN writer: whole body of `<Fen as IntoNotation<State>>::into_notation`, compiled in the harness with `write!` bound to a byte sink
     dict(kind="fn_body", file="weechess-core/src/notation.rs", scopes=["mod fen", "impl IntoNotation<State> for Fen"], fn="into_notation",
          out="fen_writer_extracted.rs", header="pub fn fen_writer_body(value: &State, f: &mut Sink) -> std::fmt::Result {"),
+    # the argument parser of the `go` arm of the UCI command loop (between the two marker lines), as a function of the argument tokens
+    dict(kind="fn_range", file="weechess-engine/src/uci.rs", scopes=["impl Client"], fn="exec",
+         marker="let mut search_time: Option<f64> = None;", end_marker="// TODO: Do we always want to pick a book move?", out="uci_go_args_extracted.rs",
+         header="#[allow(unused_mut, unused_variables, unused_assignments)]\npub fn uci_go_args(args: &[&str]) -> (Option<f64>, Option<usize>) {",
+         footer="(search_time, search_depth)\n"),
     # the `ucinewgame` arm of the UCI command loop, as a function over the two loop-local variables it can touch
     dict(file="weechess-engine/src/uci.rs", marker='Some((&"ucinewgame", _)) => {', out="ucinewgame_extracted.rs",
          header="#[allow(unused_mut, unused_variables, unused_assignments)]\npub fn ucinewgame_arm<S: SearchLike>(mut current_search: Option<S>, "
@@ -659,6 +664,9 @@ PROPS["C14"] = dict(
           timeout=1500),
         K("c14", "c14_fen_castle_field_total", desc="castle-field parser total on <= 5 ASCII bytes", functions=["ArrayMap<Color,CastleRights>::try_parse"]),
         K("c14", "c14_fen_piece_letter_total", desc="PieceIndex::try_parse total and exact on all chars", functions=["PieceIndex::try_parse"]),
+        K("uci", "c14_uci_go_args_total", kind="bounded", bound="<= 3 argument tokens of <= 5 bytes each (ASCII plus one arbitrary wide char)",
+          desc="the argument parser of the `go` arm (block extracted verbatim from Client::exec, println! bound to a buffer): total on arbitrary tokens; "
+          "`depth N` / `movetime N` with decimal N set exactly those limits", functions=["Client::exec, `go` argument parser (extracted)"], timeout=2400),
         K("uci", "c14_uci_token_total", desc="the UCI move-token reader (extracted verbatim) is total on every string of <= 8 "
           "bytes, ASCII plus one arbitrary wide char anywhere (it inspects bytes 0..4 and the 5th char only)", functions=["Client::exec move-token closure (extracted)"],
           timeout=1500),
